@@ -78,16 +78,20 @@ def check_one(arg):
     absent = set(rng.sample(sorted(files), 1)) if (v % 4 == 3 and files) else set()
     d1 = tempfile.mkdtemp(prefix="verif_c13_a_")
     d2 = tempfile.mkdtemp(prefix="verif_c13_b_")
+    d3 = tempfile.mkdtemp(prefix="verif_c13_c_")
     fails = []
     try:
-        # genuine files in the directory that comes FIRST on the include path, decoys of the same name later
+        # genuine files spread over the first two directories of the include path (an included file may include
+        # a file that lives in ANOTHER directory of the path); decoys of the same name only in LATER directories
+        dirs = [d1, d2, d3]
         for f, t in texts.items():
             if f in absent:
                 continue
-            with open(os.path.join(d1, names[f]), "w") as fh:
+            k = rng.randrange(0, 2)
+            with open(os.path.join(dirs[k], names[f]), "w") as fh:
                 fh.write(t)
             if rng.random() < 0.5:
-                with open(os.path.join(d2, names[f]), "w") as fh:
+                with open(os.path.join(dirs[rng.randrange(k + 1, 3)], names[f]), "w") as fh:
                     fh.write("this is the wrong file @@@\n")
         msrc = render_items(main, st, names)
         rep = dict(std=std, main=msrc, files={names[f]: texts[f] for f in files}, absent=[names[f] for f in absent],
@@ -97,7 +101,7 @@ def check_one(arg):
         want = [("inc", names[int(w[1:])]) if w[0] == "i" else
                 (st[int(w[1:])].text.strip(), st[int(w[1:])].label, st[int(w[1:])].name) for w in want]
         got = []
-        rd = fp.FortranStringReader(msrc, include_dirs=[d1, d2], ignore_comments=True)
+        rd = fp.FortranStringReader(msrc, include_dirs=[d1, d2, d3], ignore_comments=True)
         for it in rd:
             if it.line.lower().startswith("include '"):
                 got.append(("inc", it.line.split("'")[1]))
@@ -109,12 +113,12 @@ def check_one(arg):
         # ---- end to end
         for kind in ("string", "file"):
             if kind == "string":
-                rdr = fp.FortranStringReader(msrc, include_dirs=[d1, d2], ignore_comments=True)
+                rdr = fp.FortranStringReader(msrc, include_dirs=[d1, d2, d3], ignore_comments=True)
             else:
                 mp = os.path.join(d1, "main_program.f90")
                 with open(mp, "w") as fh:
                     fh.write(msrc)
-                rdr = fp.FortranFileReader(mp, include_dirs=[d1, d2], ignore_comments=True)
+                rdr = fp.FortranFileReader(mp, include_dirs=[d1, d2, d3], ignore_comments=True)
             o = fp.parse(msrc, std=std, rd=rdr)
             if absent:
                 # the INCLUDE line is kept as an include statement node at its position, if the source is valid with it
@@ -141,6 +145,7 @@ def check_one(arg):
     finally:
         shutil.rmtree(d1, ignore_errors=True)
         shutil.rmtree(d2, ignore_errors=True)
+        shutil.rmtree(d3, ignore_errors=True)
     return dict(fails=fails, skipped=0)
 
 
